@@ -2,7 +2,10 @@
 Layer L-proto (DESIGN §5, §6/C20): the on-disk compile cache of `pyiga/compile.py`
 as a small-step machine over a shared directory.  No Mathlib; executable.
 
-What is modelled (line references are to /repo/pyiga/compile.py as pinned):
+What is modelled (line references of the in-place build are to pyiga/compile.py before fix commit
+bd865f5; since that commit /repo implements the *repaired* protocol below — `_build_cython_module`
+is the old body writing into `builddir`, `_compile_cython_module_nocache` is mkdtemp / build /
+`os.replace` / rmtree / import):
 
 * the directory  `Dir : Path → FileState`  with  `absent | part | complete src` (`part` = partial: truncated, half-written or garbage);
   paths are either *shared* (`MODDIR/mod<name>.{pyx,c,o,so}`; `shared n .so` is the
@@ -14,9 +17,10 @@ What is modelled (line references are to /repo/pyiga/compile.py as pinned):
   compile → `.o`, link → `.so`, `import_module` again;
   every write is two steps (`…0` opens/truncates: the file becomes `partial`;
   `…1` finishes: `complete s`), so that a crash *inside* a write is a `kill` between them;
-* **current protocol** (`Proto.current`): all four files are written *in place* in
+* **current protocol** (`Proto.current`, the code before the fix, kept for the negation
+  witnesses): all four files are written *in place* in
   MODDIR (`w = none`), in particular the linker writes the final path;
-* **repaired protocol** (`Proto.repaired`, fixes/C20-atomic-publish.patch): `mkdtemp`
+* **repaired protocol** (`Proto.repaired` = /repo now, fixes/C20-atomic-publish.patch): `mkdtemp`
   (fresh id from `nextTmp`), the same four writes inside the private directory
   (`w = some t`), one atomic `os.replace` of the finished `.so` onto the final path
   (`pub`), `rmtree` of the private directory (`clean`), import from the final path;
@@ -98,6 +102,8 @@ inductive PC where
   | ld0 (w : Where) | ld1 (w : Where) (s : Src)
   /-- `os.replace(build-t/mod.so, MODDIR/mod.so)` (repaired only) -/
   | pub (t : Nat)
+  /-- second half of a non-atomic publish (`Proto.copyPublish` only) -/
+  | pub1 (t : Nat)
   /-- `shutil.rmtree(builddir)` (repaired only) -/
   | clean (t : Nat)
   /-- l.55 `return importlib.import_module(modname)` -/
@@ -113,13 +119,16 @@ inductive PC where
   deriving DecidableEq, Repr
 
 inductive Proto where
-  /-- `/repo/pyiga/compile.py` as pinned: every file written in place in MODDIR -/
+  /-- `pyiga/compile.py` before fix bd865f5: every file written in place in MODDIR -/
   | current
-  /-- fixes/C20-atomic-publish.patch: private `mkdtemp` directory + one atomic rename -/
+  /-- /repo since fix bd865f5: private `mkdtemp` directory + one atomic rename -/
   | repaired
   /-- a tempting wrong repair (kept as a negative example): build in a directory with a
   *fixed* name shared by all processes, then publish by rename -/
   | sharedTmp
+  /-- another wrong repair (negative example): private directory, but the finished `.so` is
+  *copied* onto the final path (`shutil.copy`) instead of renamed — publishing is two steps -/
+  | copyPublish
   deriving DecidableEq, Repr
 
 structure Proc where
@@ -152,7 +161,8 @@ def readSrc (d : Dir) (p : Path) : Option Src :=
 def pstep (proto : Proto) (n : Nat) (d : Dir) (nt : Nat) (src : Src) (crash : Bool) :
     PC → Dir × Nat × PC
   | .imp => (d, nt, importStep d n crash
-      (match proto with | .current => .pyx0 none | .repaired => .mk | .sharedTmp => .pyx0 (some 0)))
+      (match proto with
+        | .current => .pyx0 none | .repaired => .mk | .sharedTmp => .pyx0 (some 0) | .copyPublish => .mk))
   | .mk => (d, nt + 1, .pyx0 (some nt))
   | .pyx0 w => (d.set (fileAt n w .pyx) .part, nt, .pyx1 w)
   | .pyx1 w => (d.set (fileAt n w .pyx) (.complete src), nt, .cy0 w)
@@ -172,7 +182,11 @@ def pstep (proto : Proto) (n : Nat) (d : Dir) (nt : Nat) (src : Src) (crash : Bo
       | none => (d, nt, .failed)
   | .ld1 w s => (d.set (fileAt n w .so) (.complete s), nt,
       match w with | none => .imp2 | some t => .pub t)
-  | .pub t => ((d.set (final n) (d (.priv t .so))).set (.priv t .so) .absent, nt, .clean t)
+  | .pub t =>
+      match proto with
+      | .copyPublish => (d.set (final n) .part, nt, .pub1 t)
+      | _ => ((d.set (final n) (d (.priv t .so))).set (.priv t .so) .absent, nt, .clean t)
+  | .pub1 t => (d.set (final n) (d (.priv t .so)), nt, .clean t)
   | .clean t => (d.rmtree t, nt, .imp2)
   | .imp2 => (d, nt, importStep d n crash .failed)
   | pc => (d, nt, pc)
